@@ -993,16 +993,15 @@ restore_ownership (void *data)
    */
   bus_owner_ref (d->owner);
 
-  /* Note that removing then restoring this changes the order in which
-   * ServiceDeleted messages are sent on destruction of the
-   * connection.  This should be OK as the only guarantee there is
-   * that the base service is destroyed last, and we never even
-   * tentatively remove the base service.
+  /* The owner is still in its connection's list of owned services:
+   * an owner only leaves that list when its last reference goes away,
+   * and the restore data has held one all along. Adding
+   * d->service_link here would list the service twice (and count it
+   * twice against the connection's limit); the unused link is freed
+   * with the rest of the restore data.
    */
-  bus_connection_add_owned_service_link (d->owner->conn, d->service_link);
   
   d->hash_entry = NULL;
-  d->service_link = NULL;
   d->owner_link = NULL;
 }
 
